@@ -414,7 +414,7 @@ func (a *ObjDump) Equal(b *ObjDump) (bool, string) {
 		return false, "values"
 	case (a.StrsErr == "") != (b.StrsErr == "") || !reflect.DeepEqual(a.Strs, b.Strs):
 		return false, "strings"
-	case (a.CompErr == "") != (b.CompErr == "") || !reflect.DeepEqual(a.Comp, b.Comp):
+	case (a.CompErr == "") != (b.CompErr == "") || !SameCompound(a.Comp, b.Comp):
 		return false, "compound"
 	case (a.AttrsErr == "") != (b.AttrsErr == ""):
 		return false, "attrs error"
@@ -453,4 +453,78 @@ func (d *Dump) SortedPaths() []string {
 	}
 	sort.Strings(ps)
 	return ps
+}
+
+// SameCompound compares two compound read results. Floating-point members are
+// compared by bit pattern (reflect.DeepEqual would call a NaN unequal to itself).
+func SameCompound(a, b []core.CompoundValue) bool {
+	if len(a) != len(b) {
+		return false
+	}
+	for i := range a {
+		if !sameAny(map[string]interface{}(a[i]), map[string]interface{}(b[i])) {
+			return false
+		}
+	}
+	return true
+}
+
+func sameAny(a, b interface{}) bool {
+	switch x := a.(type) {
+	case float32:
+		y, ok := b.(float32)
+		return ok && math.Float32bits(x) == math.Float32bits(y)
+	case float64:
+		y, ok := b.(float64)
+		return ok && math.Float64bits(x) == math.Float64bits(y)
+	case map[string]interface{}:
+		y, ok := b.(map[string]interface{})
+		if !ok || len(x) != len(y) {
+			return false
+		}
+		for k, v := range x {
+			w, ok := y[k]
+			if !ok || !sameAny(v, w) {
+				return false
+			}
+		}
+		return true
+	case core.CompoundValue:
+		y, ok := b.(core.CompoundValue)
+		return ok && sameAny(map[string]interface{}(x), map[string]interface{}(y))
+	case []interface{}:
+		y, ok := b.([]interface{})
+		if !ok || len(x) != len(y) {
+			return false
+		}
+		for i := range x {
+			if !sameAny(x[i], y[i]) {
+				return false
+			}
+		}
+		return true
+	case []float32:
+		y, ok := b.([]float32)
+		if !ok || len(x) != len(y) {
+			return false
+		}
+		for i := range x {
+			if math.Float32bits(x[i]) != math.Float32bits(y[i]) {
+				return false
+			}
+		}
+		return true
+	case []float64:
+		y, ok := b.([]float64)
+		if !ok || len(x) != len(y) {
+			return false
+		}
+		for i := range x {
+			if math.Float64bits(x[i]) != math.Float64bits(y[i]) {
+				return false
+			}
+		}
+		return true
+	}
+	return reflect.DeepEqual(a, b)
 }
